@@ -154,7 +154,7 @@ def tlc_mc(pid, module, cfg_body, constants, workers=NCPU, timeout=1800, need_ac
     st["never_taken"] = dead
     if need_actions:
         for a in need_actions:
-            if cov.get(a, (0, 0))[1] + cov.get("Do" + a, (0, 0))[1] == 0:
+            if sum(cov.get(x, (0, 0))[1] + cov.get("Do" + x, (0, 0))[1] for x in a.split("|")) == 0:
                 raise ToolError("vacuity: action %s never taken in %s" % (a, module))
     log("TLC %s: %d generated, %d distinct, depth %d, %.1fs" % (module, st["generated"], st["distinct"], st["depth"], wall))
     return st
@@ -248,6 +248,33 @@ def _validate_file(pid, module, cfg, path, idx, timeout):
     return rc, out
 
 
+_SOFT = re.compile(r'"SOFT_VIOLATION",\s*"(\w+)",\s*(\d+)')
+
+
+def _soft(out, runs):
+    """Soft invariants (`X \/ PrintT(<<"SOFT_VIOLATION", "X", l>>)`) report a violated property without stopping
+    the validation of the rest of the trace.  Returns one entry per (run, name): the first offending event."""
+    first = {}
+    starts = []
+    pos = 0
+    for r in runs:
+        starts.append(pos)
+        pos += len(r)
+    import bisect
+    for m in _SOFT.finditer(out):
+        name, l = m.group(1), int(m.group(2))
+        at = l - 1                      # the state was reached by consuming event l-1 (1-based line)
+        k = bisect.bisect_right(starts, at - 1) - 1
+        if k < 0:
+            continue
+        key = (k, name)
+        rel = at - starts[k]
+        if key not in first or rel < first[key]:
+            first[key] = rel
+    return [{"run": [json.loads(x) for x in runs[k]], "at": rel, "reason": "%s violated after this event" % name}
+            for (k, name), rel in sorted(first.items())]
+
+
 def _diagnose(out, nlines):
     """Return None if accepted, else (line_index_1based_of_first_unmatched_event, reason)."""
     if "Model checking completed. No error has been found." in out and "TRACE_REJECTED_AT" not in out:
@@ -285,12 +312,14 @@ def validate_traces(pid, module, cfg_body, tracefile, constants=None, nchunks=TR
         remaining = runs
         cur_path = path
         rounds = 0
-        while remaining and len(rejected) < max_violations:
+        hard = 0
+        while remaining and hard < max_violations:
             rounds += 1
             n = sum(len(r) for r in remaining)
             rc, out = _validate_file(pid, module, cfg, cur_path, idx, timeout)
             if rc == -9:
                 return ("timeout", rejected)
+            rejected.extend(_soft(out, remaining)[:200])
             d = _diagnose(out, n)
             if d is None:
                 break
@@ -306,6 +335,7 @@ def validate_traces(pid, module, cfg_body, tracefile, constants=None, nchunks=TR
                 pos += len(r)
             bad = remaining[k]
             rejected.append({"run": [json.loads(x) for x in bad], "at": at - pos, "reason": reason})
+            hard += 1
             remaining = remaining[k + 1:]
             cur_path = path + ".rest%d" % rounds
             with open(cur_path, "w") as f:
